@@ -1,11 +1,11 @@
 (* C11 — annealers return well-formed results whose values match their states.
-   Statements only; proofs in Proofs/AnnealProofs.v.
+   Statements only; proofs in Proofs/AnnealProofs.v (kernels) and Proofs/AnnealFront.v (front ends, whole calls).
 
    The C kernels are modelled on lists (Model/Anneal.v): quso_flatten / puso_flatten are the arrays _anneal.py builds from
    the enumerated model t, c_anneal_quso / c_anneal_puso are the entry points of the extension, package adds labels and
    the offset.  E_puso (puso_flatten t) s is the model without its constant evaluated at the spin list s. *)
 From QV.Model Require Import Base Matrix Convert Reduce Anneal.
-From QV.Proofs Require Import BaseProofs KeyProofs ArithProofs InvProofs AnnealProofs.
+From QV.Proofs Require Import BaseProofs KeyProofs ArithProofs InvProofs AnnealProofs AnnealFront.
 Open Scope Q_scope.
 
 (* a call of the quadratic kernel: exactly n results; every state has one entry +-1 per spin; the reported value is the
@@ -76,8 +76,47 @@ Theorem C11_anneal_quso_matrix : forall m tab Ts num io initial seed l,
 Proof. exact run_spin_quso_matrix. Qed.
 Print Assumptions C11_anneal_quso_matrix.
 
+(* ---- whole calls, every accepted source ----------------------------------------------------------------------------
+   src_ok: a model object passed in satisfies the bookkeeping invariant of C14 and is stored canonically (every reachable
+   object does: C14_reachable, C05_tree); a plain dict needs nothing.  spin_vars / bool_vars: the variables the call reports --
+   0..max_index for Matrix kinds, the mapping's labels for labelled kinds, the variables of the QUSO / PUSO built from a dict.
+   result_ok: exactly num_anneals results; each state lists every variable once with a value in {1,-1}; the reported value is
+   the source model, offset included, at the state (st_env: the listed spins, +1 for labels the canonical model does not
+   contain).  For every schedule, exp table, initial state with +-1 entries, visiting order and seed. *)
+Theorem C11_anneal_spin : forall (quso : bool) s tab Ts num io initial seed l,
+  src_ok s -> init_pm1 initial -> (0 < num)%Z ->
+  run_spin quso s tab Ts num io initial seed = AResults l ->
+  result_ok (spin_vars quso s) (src_items s) (Z.to_nat num) l.
+Proof. exact anneal_spin_spec. Qed.
+Print Assumptions C11_anneal_spin.
+
+(* anneal_qubo / anneal_pubo: the model is converted to spins (C04), annealed, and the states converted back: values in
+   {0,1}, value = the boolean source model at the state (stb_env: listed variables, 0 elsewhere); any initial state *)
+Theorem C11_anneal_bool : forall (quso : bool) s tab Ts num io initial seed l, (0 < num)%Z ->
+  run_bool quso s tab Ts num io initial seed = AResults l ->
+  result_ok_bool (bool_vars quso s) (src_items s) (Z.to_nat num) l.
+Proof. exact anneal_bool_spec. Qed.
+Print Assumptions C11_anneal_bool.
+
+(* num_anneals <= 0: no result *)
+Theorem C11_none_spin : forall (quso : bool) s tab Ts num io initial seed, (num <= 0)%Z ->
+  run_spin quso s tab Ts num io initial seed = AResults [].
+Proof. exact anneal_spin_none. Qed.
+Print Assumptions C11_none_spin.
+Theorem C11_none_bool : forall (quso : bool) s tab Ts num io initial seed L, (num <= 0)%Z ->
+  (if quso then qubo_to_quso (src_kind s) (src_items s) else pubo_to_puso (src_kind s) (src_items s)) = Ok L ->
+  run_bool quso s tab Ts num io initial seed = AResults [].
+Proof. exact anneal_bool_none. Qed.
+Print Assumptions C11_none_bool.
+
 (* non-vacuity: two anneals of z0 z1 - z1 z2 + z0 (+ offset 5) at temperature zero from (1,1,1) *)
 Example C11_example :
   exists l, run_spin true (SrcDict [([0; 1]%nat, 1); ([1; 2]%nat, -(1)); ([0]%nat, 1); ([], 5)]) [] [0; 0] 2 true
                      (Some [(0%nat, 1%Z); (1%nat, 1%Z); (2%nat, 1%Z)]) 7 = AResults l /\ length l = 2%nat.
 Proof. eexists. vm_compute. split; reflexivity. Qed.
+
+(* non-vacuity of the whole-call theorems: a boolean PUBO given as a dict with string-like labels 200, 201 (codes), two anneals *)
+Example C11_example_bool :
+  exists l, run_bool false (SrcDict [([200; 201; 7]%nat, 2); ([201]%nat, -(3)); ([], 1)]) [] [0; 0] 2 true None 3 = AResults l
+            /\ length l = 2%nat /\ bool_vars false (SrcDict [([200; 201; 7]%nat, 2); ([201]%nat, -(3)); ([], 1)]) = [200; 201; 7]%nat.
+Proof. eexists. vm_compute. split; [reflexivity|]. split; reflexivity. Qed.
